@@ -55,11 +55,15 @@ func main() {
 			if r := recover(); r != nil {
 				if ce, ok := r.(rules.CheckError); ok {
 					fmt.Println("CHECK-ERROR", ce.Msg)
+					code = 2
 				} else {
-					fmt.Println("CHECK-ERROR checker panic:", r)
-					fmt.Println(string(debug.Stack()))
+					// the analysis itself failed on this tree: fail closed (the property could not be established)
+					stack := string(debug.Stack())
+					fmt.Println("checker panic:", r)
+					fmt.Println(stack)
+					rep.Unknown("checker", "analysis-crash", "", fmt.Sprintf("the analysis crashed on this tree (%v); the property could not be established", r))
+					code = -1
 				}
-				code = 2
 			}
 		}()
 		f(rules.NewCtx(rep, tier))
